@@ -364,6 +364,14 @@ fn gen_c04(ch: &mut Choices) -> Plan {
             p.cfg.wr_lw = 16;
         }
     }
+    if p.cfg.wr_hw == 64 {
+        // responses alone never fill the write buffer: application publishes do, so that the dispatcher
+        // really enters (and leaves) its back-pressure state while handlers are pending
+        let n = 1 + ch.choose(2);
+        for _ in 0..n {
+            p.senders.push((0..(1 + ch.choose(3))).map(|_| AppOp::PubQ0 { len: 40 }).collect());
+        }
+    }
     // MQTT 5 servers: AUTH requests are answered by the control service with AUTH, in order with the rest
     if p.role == Role::S5 && ch.chance(1, 3) {
         let n = 1 + ch.choose(2);
@@ -1691,6 +1699,8 @@ fn gen_c16(ch: &mut Choices) -> Plan {
     let ver = role.ver();
     let mut plan = base_plan("C16", role, ch);
     plan.p_immediate = *ch.pick(&[1000u32, 0, 500]);
+    // some handlers stay busy until the closing phase
+    plan.p_hold = *ch.pick(&[0u32, 0, 400]);
     plan.w_payload = *ch.pick(&[[1u32, 0, 0], [3, 2, 1]]);
     plan.cfg.min_chunk = *ch.pick(&[32 * 1024u32, 0, 2]);
     // busy application state: outstanding sends of every kind
@@ -1740,6 +1750,27 @@ fn gen_c16(ch: &mut Choices) -> Plan {
         plan.peer.script.insert(at, step(a, ver, Pre::Connected));
         plan.cfg.min_chunk = *ch.pick(&[0u32, 2]);
     }
+    if !before_handshake && ch.chance(1, 6) {
+        // motif: request A completes, request B (dispatched while A was pending) stays busy, then a packet
+        // that can only be a protocol violation arrives: it must end the connection without waiting for B
+        let a = Pkt::Publish(mk_publish(ver, ch, 110, 1, Some(7), 2));
+        let b = Pkt::Publish(mk_publish(ver, ch, 111, 1, Some(8), 2));
+        let viol = if ver == Ver::V5 {
+            let mut p = mk_publish(ver, ch, 112, 0, None, 2);
+            p.topic = String::new();
+            p.props.retain(|(id, _)| *id != 35);
+            p.props.push((35, PropVal::U16(9)));
+            Pkt::Publish(p)
+        } else {
+            Pkt::Publish(mk_publish(ver, ch, 112, 1, Some(8), 2))
+        };
+        plan.peer.script.insert(0, step(viol, ver, Pre::SawFinalAck(7, 1)));
+        plan.peer.script.insert(0, step(b, ver, Pre::Connected));
+        plan.peer.script.insert(0, step(a, ver, Pre::Connected));
+        plan.p_immediate = 0;
+        plan.p_hold = 500;
+        plan.tags.push("motif:violation-behind-busy-handler".into());
+    }
     if before_handshake && role.is_server() {
         // the first packet replaces CONNECT
         plan.peer.skip_connect = true;
@@ -1764,7 +1795,7 @@ pub const C16X_STATES: u64 = 5;
 
 /// Size of the packet alphabet: id-carrying templates with ids {1, 2}, the others once.
 pub fn c16x_alphabet_len(ver: Ver) -> u64 {
-    if ver == Ver::V5 { 27 } else { 23 }
+    if ver == Ver::V5 { 28 } else { 23 }
 }
 
 /// Letter `a` of the alphabet as a packet (`i` only names topics / filters).
@@ -1798,7 +1829,15 @@ pub fn c16x_letter(ver: Ver, server_ep: bool, ch: &mut Choices, a: u32, i: u32) 
             }
             4 => Pkt::Disconnect(rc::Disconnect { code: 0, props: Vec::new() }),
             5 => Pkt::Auth(rc::Disconnect { code: 0x18, props: vec![(21, PropVal::Str("m".into()))] }),
-            _ => Pkt::Disconnect(rc::Disconnect { code: 0x04, props: Vec::new() }),
+            6 => Pkt::Disconnect(rc::Disconnect { code: 0x04, props: Vec::new() }),
+            _ => {
+                // PUBLISH that names its topic by an alias nobody ever bound
+                let mut p = mk_publish(ver, ch, i, 0, None, 2);
+                p.topic = String::new();
+                p.props.retain(|(id, _)| *id != 35);
+                p.props.push((35, PropVal::U16(9)));
+                Pkt::Publish(p)
+            }
         }
     }
 }
@@ -1875,8 +1914,11 @@ fn gen_c16x(ch: &mut Choices) -> Plan {
     match state {
         // idle, handlers complete at once
         0 => plan.p_immediate = 1000,
-        // idle, handlers gated (completed by the simulator in a seeded order)
-        1 => plan.p_immediate = 0,
+        // idle, handlers gated (completed by the simulator in a seeded order, some only in the closing phase)
+        1 => {
+            plan.p_immediate = 0;
+            plan.p_hold = 400;
+        }
         // busy: an at-least-once and an exactly-once send outstanding, the peer stays silent
         2 => {
             plan.p_immediate = 500;
